@@ -30,6 +30,7 @@ func init() {
 				// value clauses
 				c.ruleLookupTables(cfg)
 				c.ruleScalarMultLoops(cfg)
+				c.ruleVarTimeLoops(cfg)
 				c.ruleRadix16(cfg)
 			}
 		},
